@@ -289,6 +289,16 @@ pub const fn sample_rate_to_capacity(sample_rate_hz: u32) -> usize {
     num_main_samples_to_care_about + num_to_discard_at_end + 1
 }
 
+/// Verification hook: the constants of this module as compiled
+#[cfg(feature = "verif-hooks")]
+pub fn verif_consts() -> [(&'static str, u32); 3] {
+    [
+        ("RIBBON_FALL_TIME_USEC", RIBBON_FALL_TIME_USEC),
+        ("RIBBON_RISE_TIME_USEC", RIBBON_RISE_TIME_USEC),
+        ("MIN_CAPTURE_TIME_USEC", MIN_CAPTURE_TIME_USEC),
+    ]
+}
+
 #[cfg(test)]
 mod tests {
     use super::*;
